@@ -17,6 +17,7 @@ import (
 type Cond struct {
 	K string `json:"k"` // t f h nr fnr nrge not and veq
 	N int    `json:"n,omitempty"`
+	M int    `json:"m,omitempty"`
 	S string `json:"s,omitempty"`
 	A *Cond  `json:"a,omitempty"`
 	B *Cond  `json:"b,omitempty"`
@@ -73,6 +74,8 @@ func condLean(c *Cond, b *strings.Builder) {
 		b.WriteString(c.K + " ")
 	case "h", "nr", "fnr", "nrge":
 		fmt.Fprintf(b, "%s %d ", c.K, c.N)
+	case "nrmod":
+		fmt.Fprintf(b, "nrmod %d %d ", c.N, c.M)
 	case "not":
 		b.WriteString("not ")
 		condLean(c.A, b)
@@ -126,6 +129,8 @@ func opsLean(ops []Op, b *strings.Builder) {
 			fmt.Fprintf(b, "sa %d %s ", o.N, vh.HxS(o.S))
 		case "sc":
 			fmt.Fprintf(b, "sc %d ", o.N)
+		case "cl":
+			fmt.Fprintf(b, "cl %s ", vh.HxS(o.F))
 		default:
 			panic("bad op " + o.K)
 		}
@@ -228,6 +233,8 @@ func (g *awkGen) cond(c *Cond) string {
 		return fmt.Sprintf("FNR == %d", c.N)
 	case "nrge":
 		return fmt.Sprintf("NR >= %d", c.N)
+	case "nrmod":
+		return fmt.Sprintf("NR %% %d == %d", c.N, c.M)
 	case "not":
 		return "!(" + g.cond(c.A) + ")"
 	case "and":
@@ -326,8 +333,21 @@ func (g *awkGen) ops(ops []Op, ind string) string {
 		case "c":
 			g.nfn++
 			name := fmt.Sprintf("fn%d", g.nfn)
-			body := g.ops(o.Body, "  ")
-			switch g.pick(4) {
+			variant := g.pick(7)
+			body := ""
+			if variant != 3 && variant != 5 && variant != 6 {
+				body = g.ops(o.Body, "  ")
+			}
+			switch variant {
+			case 4: // recursive: the body runs at the bottom of 2-3 nested activations of the same function
+				g.funcs = append(g.funcs, "function "+name+"(d) {\n  if (d > 0) {\n    "+name+"(d - 1)\n    return\n  }\n"+body+"}\n")
+				fmt.Fprintf(&b, "%s%s(%d)\n", ind, name, 1+g.rng.Intn(2))
+			case 5: // inside a for-in loop over a local array
+				g.funcs = append(g.funcs, "function "+name+"(  k, la) {\n  la[\"x\"] = 1\n  for (k in la) {\n"+g.ops(o.Body, "    ")+"  }\n}\n")
+				b.WriteString(ind + name + "()\n")
+			case 6: // inside a while loop within the function, with a local scalar and a local array alive
+				g.funcs = append(g.funcs, "function "+name+"(  k, la) {\n  la[1] = 1\n  k = 0\n  while (k++ < 1) {\n"+g.ops(o.Body, "    ")+"  }\n}\n")
+				b.WriteString(ind + "zz = " + name + "() + 1\n")
 			case 0:
 				g.funcs = append(g.funcs, "function "+name+"() {\n"+body+"}\n")
 				b.WriteString(ind + name + "()\n")
@@ -366,6 +386,12 @@ func (g *awkGen) ops(ops []Op, ind string) string {
 			}
 		case "sc":
 			fmt.Fprintf(&b, "%sARGC = %d\n", ind, o.N)
+		case "cl":
+			if g.pipeOf[o.F] {
+				fmt.Fprintf(&b, "%sclose(%s)\n", ind, awkStr("cat "+o.F))
+			} else {
+				fmt.Fprintf(&b, "%sclose(%s)\n", ind, awkStr(o.F))
+			}
 		}
 	}
 	return b.String()
@@ -373,7 +399,7 @@ func (g *awkGen) ops(ops []Op, ind string) string {
 
 func (cs *Case) awk(plain bool) string {
 	g := &awkGen{rng: rand.New(rand.NewSource(cs.Variant)), pipeOf: map[string]bool{}, files: cs.Files, plain: plain}
-	if !plain && len(cs.Stdin) == 0 {
+	if !plain && len(cs.Stdin) == 0 && !strings.HasPrefix(cs.Class, "long") { // (a process per getline is too slow for the long runs)
 		// `cmd | getline` hands the interpreter's stdin to the child process (os/exec copies it), so the pipe spelling is used
 		// only when stdin is empty
 		for _, f := range sortedKeys(cs.Files) {
